@@ -12,8 +12,9 @@ META = {
     "engine": "data",
     "text": "Xfcc.tla defines the XFCC grammar on characters (a left-to-right scanner over the delimiter alphabet "
             "{, ; = \" \\ key-letter value-char} plus the percent-escapes %2C %3B %3D %22 %5C as ordinary value characters) and reports every value as position-identified tokens.  TLC enumerates "
-            "all strings over the alphabet up to length 4 (quick, 9 symbols) / 5 (thorough, 12 symbols), all strings 'k=' + tail with tails up to "
-            "length 4 / 5 (every grammar-valid header starts with a key: this reaches all valid headers of length 6 / 7 that "
+            "all strings over the alphabet up to length 4 (quick) / 6 (thorough), all strings 'k=' + tail with tails up to length 4 / 6 over that "
+            "alphabet and up to length 4 over the alphabet extended by the percent-escapes (quick: %3B %3D; thorough: all five) "
+            "(every grammar-valid header starts with a key: this reaches all valid headers of length 6 / 8 that "
             "start with a one-letter key), and a "
             "structured family of longer valid headers (quoted values containing fake pairs/elements, escaped quotes, "
             "escaped backslashes), each with its reference parse, and checks five sanity invariants that tie the "
@@ -145,11 +146,11 @@ def run(ctx: Ctx) -> None:
     from vgi_rpc.rpc import AuthContext
 
     quick = ctx.quick
-    # quick: the two escapes that matter most (%3B, %3D) join the exhaustive alphabet; thorough: all five.  The family
-    # of longer valid headers uses all five in both tiers.
-    consts = {"MaxLen": 4 if quick else 5, "TailLen": 4 if quick else 5, "FamilyDepth": 1 if quick else 2,
-              "Alphabet": Raw('{",", ";", "=", "q", "b", "k", "v", "E;", "E="}') if quick else
-              Raw('{",", ";", "=", "q", "b", "k", "v", "E,", "E;", "E=", "Eq", "Eb"}')}
+    # the percent-escapes join the alphabet of the 'k=' + tail part (quick: %3B and %3D, thorough: all five); the
+    # family of longer valid headers uses all five in both tiers
+    consts = {"MaxLen": 4 if quick else 6, "TailLen": 4 if quick else 6, "FamilyDepth": 1 if quick else 2,
+              "Alphabet": Raw('{",", ";", "=", "q", "b", "k", "v"}'),
+              "EscAlphabet": Raw('{"E;", "E="}') if quick else Raw('{"E,", "E;", "E=", "Eq", "Eb"}'), "EscTailLen": 4}
     invs = ["ElemsAreTopLevelCommas", "PairsAreTopLevelSemis", "EveryLetterOnce", "NonEmptyElems", "QuotesOnlyEscaped"]
     cases = enumerate_cases(ctx, "data", "Xfcc", constants=consts, invariants=invs)
     ctx.exhaustive = True
@@ -208,8 +209,8 @@ def run(ctx: Ctx) -> None:
                             ctx.violation("OnlyAuthFailure", {"cls": "invalid", "exc": out, "sel": sel, "leg": leg},
                                           {"header": hdr, "abstract": "".join(s), "exception": repr(r)})
             continue
-        nvar = 1 if cls != "valid" else (3 if quick else 4)
-        for vi in range(nvar):
+        variants = (0,) if cls != "valid" else ((0, 2) if quick else (0, 1, 2, 3))
+        for vi in variants:
             rng = random.Random(f"{ctx.seed}|{ci}|{vi}")
             hdr, names, tb = concretize(s, exp, vi, rng)
             header = None if cls == "absent" else hdr
@@ -249,7 +250,7 @@ def run(ctx: Ctx) -> None:
                     "observed_raw": r["_raw"], "observed_tokens": {k: r["obs"][k] for k in ("first", "last")}})
     # Conforms does not depend on the case-space constants; the judge runs get the smallest ones so that TLC does not
     # rebuild the whole case set at every start
-    bad = judge_dedup(ctx, "data", "Xfcc", records, constants={**consts, "MaxLen": 0, "TailLen": 0, "FamilyDepth": 0})
+    bad = judge_dedup(ctx, "data", "Xfcc", records, constants={**consts, "MaxLen": 0, "TailLen": 0, "EscTailLen": 0, "FamilyDepth": 0})
     for idx, clauses in bad:
         r = records[idx]
         for cl in clauses:
